@@ -23,14 +23,22 @@ use rvh::batch::{parse_args, run_batch};
 use serde_json::{Value, json};
 
 /// List element: a host value whose Clone is a pausing point during get
-#[derive(Debug, PartialEq)]
+#[derive(Debug)]
 pub struct El {
     v: u64,
+}
+
+impl PartialEq for El {
+    fn eq(&self, other: &Self) -> bool {
+        elem_point();
+        self.v == other.v
+    }
 }
 
 impl Clone for El {
     fn clone(&self) -> Self {
         clone_point();
+        elem_point();
         El { v: self.v }
     }
 }
@@ -70,12 +78,16 @@ thread_local! {
     static TID: Cell<Option<usize>> = const { Cell::new(None) };
     static QUIET: Cell<bool> = const { Cell::new(false) };
     static IN_GET: Cell<bool> = const { Cell::new(false) };
+    static ELEM_SEEN: Cell<bool> = const { Cell::new(false) };
     static CAPTURE: Cell<Option<usize>> = const { Cell::new(None) };
     static CAPTURE_RAW: Cell<Option<usize>> = const { Cell::new(None) };
     static CAPTURING: Cell<bool> = const { Cell::new(false) };
 }
 
 static CTL: Mutex<Option<Arc<Ctl>>> = Mutex::new(None);
+/// probe mode: the first element callback (Clone / PartialEq) of every operation is a pausing point,
+/// so the controller can test whether the list's lock is held while its elements are accessed
+static ELEM_PAUSE_ALL: std::sync::atomic::AtomicBool = std::sync::atomic::AtomicBool::new(false);
 
 fn ctl() -> Option<Arc<Ctl>> {
     CTL.lock().unwrap().clone()
@@ -148,6 +160,19 @@ fn clone_point() {
     st.th[tid].events.push(json!(["use", g0 != g1]));
 }
 
+fn elem_point() {
+    if !ELEM_PAUSE_ALL.load(std::sync::atomic::Ordering::SeqCst) {
+        return;
+    }
+    let Some(tid) = TID.with(|t| t.get()) else { return };
+    if QUIET.with(|q| q.get()) || ELEM_SEEN.with(|e| e.replace(true)) {
+        return;
+    }
+    let Some(c) = ctl() else { return };
+    let l = c.m.lock().unwrap().th[tid].cur_list;
+    park(&c, tid, "elem", l);
+}
+
 fn list_vid(l: &L) -> (usize, usize) {
     CAPTURING.with(|c| c.set(true));
     CAPTURE.with(|c| c.set(None));
@@ -208,6 +233,7 @@ fn run_op(op: &Value, lists: &[L], f: &Funcs) -> Value {
         }
         "len" => json!(l("l").len()),
         "contains" => json!(l("l").contains(&el(n("v")))),
+        "index" => json!(l("l").index(&el(n("v")))),
         "tovec" => {
             let r = l("l").to_vec();
             json!(r.iter().map(|e| e.v).collect::<Vec<u64>>())
@@ -253,6 +279,7 @@ fn worker(c: Arc<Ctl>, tid: usize, lists: Vec<L>, f: Funcs) {
                 st = c.cv.wait(st).unwrap();
             }
         };
+        ELEM_SEEN.with(|e| e.set(false));
         let r = std::panic::catch_unwind(std::panic::AssertUnwindSafe(|| run_op(&cmd, &lists, &f)));
         let v = match r {
             Ok(v) => v,
@@ -303,6 +330,7 @@ fn run_case(case: &Value, f: &Funcs, prog: &rvh::batch::Progress) -> Value {
     let ids: Vec<(usize, usize)> = lists.iter().map(list_vid).collect();
     let vids: Vec<usize> = ids.iter().map(|x| x.0).collect();
     let nthreads = case["threads"].as_u64().unwrap_or(2) as usize;
+    ELEM_PAUSE_ALL.store(case.get("elem_pause").and_then(|b| b.as_bool()).unwrap_or(false), std::sync::atomic::Ordering::SeqCst);
     let c = Arc::new(Ctl { m: Mutex::new(St::default()), cv: Condvar::new() });
     {
         let mut st = c.m.lock().unwrap();
